@@ -966,7 +966,8 @@ def plan_c19(tier, seed, workdir, case):
 
 spec("C19", plan=plan_c19,
      rule="all inputs up to length 7 (thorough 8) over {a, b, LF, CR} and rapidcheck texts built from line pieces; every position 0..size "
-          "obtained from real runs (the input's own position() after each step of sor<eol,any> resp. any, plus a parse_error position); "
+          "obtained from real runs (the input's own position() after each step of sor<eol,any>, any, sor<literals containing an end-of-line "
+          "character, any> resp. sor<bytes<2>,any>, plus a parse_error position); "
           "five end-of-line policies x eager/lazy x initial counters {0/1/1, 7/5/4, 1000/1/1, 0/3/9} x fresh input / input that was used "
           "and restarted (eager: restart( byte, line, column ) onto the counters under test).  Oracle: independent line splitter "
           "(lines separated by the policy's end-of-line sequences, leftmost-longest): at(p) is the byte at the position's offset, "
